@@ -86,6 +86,12 @@ CHECKS["C06"] = dict(
   note="Trusted: symgo executor (Real arithmetic for math.Ceil(float64(n)/8) exact on the integers involved), z3. Bounds: strings <=2/3 bytes, <=2 members/columns, format packages <=16..24 bytes and <=4 fields. Outside: strings at the maximum of their length prefix, BLOB formats, PARAMS/ROW data (value codecs: C04/C05), the login record and client-only message layout beyond what C09's harnesses decode.",
   ref="DESIGN.md §4 C06")
 
+CHECKS["C08"] = dict(
+  technique="symbolic execution of go/ssa with SMT (z3): the real Channel.Login against symbolic reply scripts queued as packages; crypto and PEM parsing replaced by deterministic stubs",
+  text="Bounded symbolic model checking of the real Channel.Login, LoginConfig.pack, rsaEncrypt, generateSymmetricKey and the send path. Reply scripts are queued on the channel as packages: plain flow with symbolic LOGINACK status and 16-bit DONE status; encrypted flow with every checked field symbolic (first acknowledgement status, message id, parameter-format count, parameter count and kinds, asymmetric type, key usable or not, second acknowledgement status, capabilities all-zero or not, final DONE status); the valid encrypted script with one package deleted, replaced or inserted at every position; scripts that stop early with the caller's deadline expiring. Decided: Login returns nil exactly for the valid acceptance, otherwise an error (wrapping the context error when the reply stops early), never a panic or a wait that outlives the context; on success the connection's capability set is the server's and the reply is consumed.",
+  note="Package level (byte-level parsing of the replies is C02/C06/C07, composed by assumption). Trusted: symgo executor, z3, crypto stubs (vf_crypto.go: a key is usable iff it is the harness's well-formed PEM key; EncryptOAEP returns an opaque ciphertext; rand.Read returns arbitrary bytes or fails). Bounds: scripts of <=9 packages, single edits. Known finding F-C08-extra-packages-tolerated. Outside: RSA key sizes, real PEM/PKCS#1 parsing, ENVCHANGE(PACKSIZE) during login (C10/C11).",
+  ref="DESIGN.md §4 C08")
+
 NOT_APPLICABLE = {
 }
 
